@@ -31,9 +31,10 @@ def area_world(rng, spherical=None, cross=None, nfeat=None, temp_allow=("uniform
     return w, sph
 
 
-def any_world(rng, spherical=None, cross=None, nfeat=None, lines=0.4, allow_mass_conserving=True):
+def any_world(rng, spherical=None, cross=None, nfeat=None, lines=0.4, allow_mass_conserving=True,
+              temp_allow=("uniform", "linear", "adiabatic", "chapman")):
     """worlds with every feature type: area features, plumes, subducting plates and faults"""
-    w, sph = area_world(rng, spherical, cross, nfeat)
+    w, sph = area_world(rng, spherical, cross, nfeat, temp_allow=temp_allow)
     g = Gen(rng)
     n = len(w["features"])
     out = []
